@@ -111,6 +111,7 @@ class MonitoredStore(QueueStorage):
         r = self._call('set_timestamp', id, self.inner.set_timestamp, id, timestamp)
         self.qw.ev('store', 'set_timestamp', self.qw.sid(id), round(timestamp - self.qw.t0, 6))
         self.qw.due[self.qw.sid(id)] = timestamp
+        self.qw.flushed.discard(self.qw.sid(id))
         return r
 
     def increment_attempts(self, id):
@@ -132,7 +133,12 @@ class MonitoredStore(QueueStorage):
         return res
 
     def get(self, id):
-        env, attempts = self._call('get', id, self.inner.get, id)
+        sid = self.qw.sid(id)
+        self.qw.transit[sid] = self.qw.transit.get(sid, 0) + 1
+        try:
+            env, attempts = self._call('get', id, self.inner.get, id)
+        finally:
+            self.qw.transit[sid] -= 1
         self.qw.on_get(id, env, attempts)
         return env, attempts
 
@@ -181,6 +187,8 @@ class QueueWorld(object):
         self.slow_ops = set(cfg.get('slow_ops', ()))
         self.harness_wait = cfg.get('harness_wait', False)
         self.waiters = []
+        self.transit = {}
+        self.flushed = set()           # ids flushed since their last set_timestamp
         self.last_incr = {}
         self.envs = []                 # keep envelope objects alive (id() stability)
         self.env_qid = {}              # id(envelope object) -> qid
@@ -257,6 +265,10 @@ class QueueWorld(object):
             if missing:
                 self.flag('outstanding-recipient-omitted', 'attempt #%d of %s omits outstanding %r (attempt recipients %r)'
                           % (led['attempts'], qid, missing, rcpts))
+        due = self.due.get(qid)
+        if due is not None and self.world.loop._now < due - 1e-9 and qid not in self.flushed:
+            self.flag('attempt-before-due', 'attempt of %s at t=%g although its retry is due at t=%g (not flushed)'
+                      % (qid, self.world.now, due - self.t0))
         self.inflight[qid] = self.inflight.get(qid, 0) + 1
         if self.inflight[qid] > 1:
             self.flag('two-attempts-in-flight', 'second concurrent attempt of %s' % qid)
@@ -401,6 +413,7 @@ class QueueWorld(object):
                     return orig_enqueue(envelope)
                 q.enqueue = enqueue_spy
             w.loop.state_key = self.state_key
+            w.loop.before_timer = self.on_time_advance
             q.start()
             script = list(cfg.get('script', [('enqueue', i) for i in range(cfg.get('messages', 1))]))
             self.script_pos = 0
@@ -446,13 +459,52 @@ class QueueWorld(object):
 
     def do_flush(self):
         rec = {'call': self.world.now, 'ret': None, 'steps_at_call': self.world.loop.steps, 'steps_at_ret': None,
-               'waiting': [self.sid(i) for _, i in self.q.queued]}
+               'waiting': [self.sid(i) for _, i in self.q.queued], 'attempts_at_call': len(self.attempts), 'checked': False}
         self.flushes.append(rec)
+        self.flushed.update(rec['waiting'])
         self.ev('flush-call')
         self.q.flush()
         rec['ret'] = self.world.now
         rec['steps_at_ret'] = self.world.loop.steps
         self.ev('flush-return')
+        if rec['steps_at_ret'] != rec['steps_at_call'] or rec['ret'] != rec['call']:
+            self.flag('flush-waited', 'flush() called at t=%g returned at t=%g after %d loop events (timers/environment) fired'
+                      % (rec['call'], rec['ret'], rec['steps_at_ret'] - rec['steps_at_call']))
+
+    def scheduled_or_in_flight(self, qid):
+        q = self.q
+        active = set(map(self.sid, q.active_ids))
+        queued = set(self.sid(i) for _, i in q.queued)
+        return qid in active or qid in queued or self.transit.get(qid, 0) > 0 or self.inflight.get(qid, 0) > 0
+
+    def on_time_advance(self, next_due):
+        """Called by the loop just before virtual time moves forward: a quiescent moment."""
+        q = self.q
+        now = self.world.loop._now
+        stored = self.stored_ids()
+        for qid, led in sorted(self.ledger.items()):
+            if led['outstanding'] and not led['removed'] and qid in stored and qid in self.known:
+                if not self.scheduled_or_in_flight(qid):
+                    self.flag('known-message-neither-scheduled-nor-in-flight',
+                              'at t=%g message %s (outstanding %r) is in storage and known to the queue but neither in flight nor '
+                              'on the timetable (queued=%r active=%r)' % (self.world.now, qid, led['outstanding'],
+                                                                         [self.sid(i) for _, i in q.queued], sorted(map(self.sid, q.active_ids))))
+        for ts, i in q.queued:
+            if ts <= now:
+                self.flag('due-but-not-dispatched', 'at t=%g the timetable still holds %s due at t=%g while time moves on to t=%g'
+                          % (self.world.now, self.sid(i), ts - self.t0, next_due - self.t0))
+        if q.queued and next_due > q.queued[0][0] + 1e-9:
+            self.flag('no-wakeup-before-due', 'time moves on to t=%g but %s is due at t=%g and no timer wakes the scheduler before'
+                      % (next_due - self.t0, self.sid(q.queued[0][1]), q.queued[0][0] - self.t0))
+        for rec in self.flushes:
+            if rec['ret'] is not None and not rec['checked']:
+                rec['checked'] = True
+                for qid in rec['waiting']:
+                    led = self.ledger.get(qid)
+                    tried = any(a['qid'] == qid for a in self.attempts[rec['attempts_at_call']:])
+                    if led is not None and led['outstanding'] and not tried and not self.transit.get(qid, 0):
+                        self.flag('flushed-message-not-attempted', 'flush() at t=%g returned but %s was not attempted before time moved on'
+                                  % (rec['call'], qid))
 
     def do_announce(self, which):
         """storage wait() announcement of the which-th known id (may be already known to the queue)."""
@@ -539,6 +591,9 @@ class QueueWorld(object):
         """Obligations on the quiescent terminal state (nothing can happen any more)."""
         stored = self.stored_ids()
         self.pool_deadlock = self.pools_full()
+        for rec in self.flushes:
+            if rec['ret'] is None:
+                self.flag('flush-never-returned', 'flush() called at t=%g never returned' % rec['call'])
         for qid, led in sorted(self.ledger.items()):
             if led['outstanding']:
                 where = 'still in storage' if qid in stored else 'gone from storage'
